@@ -298,6 +298,67 @@ def print_raises(src: str) -> bool:
         return True
 
 
+# --- the console (`sys.stdout`) the evaluation entry points write their progress line to ------------------------
+# kinds: utf8 (the default sink), closed (every write: ValueError), ascii / latin1 / cp1252 (strict: the emoji of the
+# progress line cannot be encoded), asciirepl / asciibs (errors='replace' / 'backslashreplace': everything accepted),
+# failat k / failatv k (the k-th write of the stream's life raises BrokenPipeError / ValueError, all others are swallowed)
+CONSOLE_KINDS = ["utf8", "closed", "ascii", "latin1", "cp1252", "asciirepl", "asciibs", "failat", "failatv"]
+
+
+def console_line(kind: str, k: int = 0) -> str:
+    return f"console {kind} {k}"
+
+
+class FailingAt(io.TextIOBase):
+    """text stream whose k-th write (counted from 1) raises; all others are swallowed"""
+
+    def __init__(self, k, exc):
+        self.k, self.exc, self.n = k, exc, 0
+
+    def writable(self):
+        return True
+
+    def write(self, text):
+        self.n += 1
+        if self.n == self.k:
+            raise self.exc
+        return len(text)
+
+
+def make_console(kind: str, k: int):
+    if kind == "closed":
+        st = io.StringIO()
+        st.close()
+        return st
+    if kind in ("ascii", "latin1", "cp1252"):
+        return io.TextIOWrapper(io.BytesIO(), encoding={"latin1": "latin-1"}.get(kind, kind), errors="strict",
+                                write_through=True)
+    if kind in ("asciirepl", "asciibs"):
+        return io.TextIOWrapper(io.BytesIO(), encoding="ascii",
+                                errors="replace" if kind == "asciirepl" else "backslashreplace", write_through=True)
+    if kind == "failat":
+        return FailingAt(k, BrokenPipeError(32, "Broken pipe"))
+    if kind == "failatv":
+        return FailingAt(k, ValueError("write to a detached console"))
+    return None
+
+
+class _OnConsole:
+    """sys.stdout replaced by the case's console for the duration of ONE evaluation call"""
+
+    def __init__(self, stream):
+        self.stream = stream
+
+    def __enter__(self):
+        self.saved = sys.stdout
+        if self.stream is not None:
+            sys.stdout = self.stream
+
+    def __exit__(self, *a):
+        sys.stdout = self.saved
+        return False
+
+
 PATHS = {"math": "GLYCOLYSIS", "logic": "KREBS_CYCLE", "tool": "OXIDATIVE", "transform": "BETA_OXIDATION"}
 
 
@@ -697,6 +758,16 @@ class _State:
         self.allowed = None
         self.tools_run = []
         self.tool_beh = {}       # name -> (version, exception kind) of the body registered now
+        self.console = None      # the stream the evaluation calls write to (`console` line); None: the UTF-8 sink
+        self.console_spec = None
+
+    def _fresh_console(self, engine):
+        """concrete-text entry points run on an engine of their own: under a `console` line that engine is made
+        non-silent through its public attribute (after the registrations) and gets a fresh stream of the case's kind"""
+        if self.console_spec is None:
+            return _OnConsole(None)
+        engine.silent = False
+        return _OnConsole(make_console(*self.console_spec))
 
     def _caps(self, caps):
         from operon_ai.core.types import Capability
@@ -845,6 +916,10 @@ class _State:
             else:
                 self.m.register_function(name, fn, required_capabilities=capset)
             return "ok", None
+        if op == "console":
+            self.console = make_console(t[1], int(t[2]))
+            self.console_spec = None if self.console is None else (t[1], int(t[2]))
+            return "ok", None
         if op == "retimeout":
             # the public attribute `timeout` of the LIVE engine re-assigned: 0 / None ("no timeout") / positive again
             self.m.timeout = {"zero": 0, "zerof": 0.0, "none": None, "pos": 5.0}[t[1]]
@@ -866,7 +941,7 @@ class _State:
             del self.tools_run[:]
             ex = {}
             try:
-                with prof:
+                with _OnConsole(self.console), prof:
                     r = self.m.digest_glucose(src)
                 head = "text:fail" if isinstance(r, str) and r.startswith("Metabolic Failure") else "text:ok"
             except BaseException as e:  # noqa
@@ -881,7 +956,7 @@ class _State:
             ex = {}
             m2 = M.Mitochondria(silent=True)
             try:
-                with prof:
+                with self._fresh_console(m2), prof:
                     r = m2.digest_glucose(src)
                 ex["prof"] = prof.report()
                 head = "returned"
@@ -924,7 +999,7 @@ class _State:
             del self.tools_run[:]
             ex = {}
             try:
-                with prof:
+                with _OnConsole(self.console), prof:
                     r = self.m.metabolize(src, pw)
             except BaseException as e:  # noqa
                 ex["raised"] = type(e).__name__
@@ -1035,7 +1110,7 @@ class _State:
                 m2.register_function(name, tool_fns[name], required_capabilities=self._caps(caps))
             ex = {}
             try:
-                with prof:
+                with self._fresh_console(m2), prof:
                     r = m2.metabolize(src, pw)
             except BaseException as e:  # noqa
                 ex["raised"] = type(e).__name__
